@@ -67,7 +67,7 @@ def run_iteration_typestate(ctx: Ctx, f: FuncInfo, head: Node, is_map: bool):
         if n.op == "exit" and in_iter and not canc:
             ev(ai, n, "the spawner leaves its loop early without having been cancelled (remaining invocations lost)", st)
         if n.op == "raise_exit" and in_iter and uexc == "value":
-            ev(ai, n, "an exception raised by an operation on a user-supplied value (iterating it, calling a method of it) inside an iteration escapes "
+            ev(ai, n, "an exception raised by an operation on a user-supplied value (iterating it, calling a method of it, %-formatting it) inside an iteration escapes "
                       "the spawner (remaining invocations lost)", st)
         elif n.op == "raise_exit" and in_iter and uexc:
             ev(ai, n, "an exception raised by the user's function at call time escapes the spawner (remaining invocations lost)", st)
@@ -91,6 +91,8 @@ def run_iteration_typestate(ctx: Ctx, f: FuncInfo, head: Node, is_map: bool):
                 n.op == "comp" or n.op == "iter" or (n.op == "call" and n.callee is not None and n.callee.kind == "unknown")):
             # an operation on a value the user handed in (not the call that creates the coroutine)
             uexc = "value"
+        elif n.op == "format" and lab[0] == "x" and not uexc:
+            uexc = "value"  # "<template>" % <user value>: TypeError when the value is a tuple that does not fit the template
         if n.op == "handler" and uexc:
             # the exception of the user call was caught by this handler
             if any(ctx.hier.is_sub(EXCEPTION, t) for t in n.types):
@@ -177,9 +179,15 @@ def r_spawner_shape(ctx: Ctx, rule: str, names=("_apply_spawner", "_start_num"))
             ucalls = ctx.distinct_sites(ctx.nodes(f, lambda n: is_user_step(n) and head.ast in n.loops))
             for u in ucalls:
                 c: ast.Call = u.ast
-                callee_role = expr_role(ctx, f, c.func)
-                fwd = (len(c.args) == 1 and isinstance(c.args[0], ast.Starred) and expr_role(ctx, f, c.args[0].value) == "ARGS"
-                       and len(c.keywords) == 1 and c.keywords[0].arg is None and expr_role(ctx, f, c.keywords[0].value) == "KWARGS")
+
+                def role_at(x: ast.AST, u=u) -> Optional[str]:
+                    # (the call may sit in a helper spliced into the spawner: names are followed to the spawner's own)
+                    fr_, _env, leaf = ctx.vals.trace(u.func, u.env, x)
+                    return expr_role(ctx, fr_, leaf)
+
+                callee_role = role_at(c.func)
+                fwd = (len(c.args) == 1 and isinstance(c.args[0], ast.Starred) and role_at(c.args[0].value) == "ARGS"
+                       and len(c.keywords) == 1 and c.keywords[0].arg is None and role_at(c.keywords[0].value) == "KWARGS")
                 rep.ob(rule, "the invocation is func(*args, **kwargs) with the request's function and arguments", fwd and callee_role == "FUNC", node=u,
                        detail=f"callee role {callee_role}")
             _coroutine_handed_on(ctx, rule, f, head)
